@@ -502,6 +502,9 @@ class _matrix(object):
         # A[:,2:6] = 2.5
         #  submatrix to matrix (the value matrix should be the same size as the slice size)
         # A[3,:] = B   where A is n x m  and B is n x 1
+        # (the cached factors go before the first entry changes: an exception
+        # in between must not leave them with a changed matrix)
+        self._LU = None
         # Convert vector to matrix indexing
         if isinstance(key, int) or isinstance(key,slice):
             # only sufficent for vectors
@@ -563,9 +566,6 @@ class _matrix(object):
                 self.__data[key] = value
             elif key in self.__data:
                 del self.__data[key]
-
-        if self._LU:
-            self._LU = None
         return
 
     def __iter__(self):
@@ -693,11 +693,11 @@ class _matrix(object):
         return self.__rows
 
     def __setrows(self, value):
+        self._LU = None
         for key in self.__data.copy():
             if key[0] >= value:
                 del self.__data[key]
         self.__rows = value
-        self._LU = None
 
     rows = property(__getrows, __setrows, doc='number of rows')
 
@@ -705,11 +705,11 @@ class _matrix(object):
         return self.__cols
 
     def __setcols(self, value):
+        self._LU = None
         for key in self.__data.copy():
             if key[1] >= value:
                 del self.__data[key]
         self.__cols = value
-        self._LU = None
 
     cols = property(__getcols, __setcols, doc='number of columns')
 
